@@ -1,4 +1,6 @@
-use std::{future::Future, sync::Arc, time::Duration};
+use std::{future::Future, panic::AssertUnwindSafe, sync::Arc, time::Duration};
+
+use futures::FutureExt as _;
 
 use crate::{Actor, DynResult};
 
@@ -12,16 +14,19 @@ impl<A: Actor> Spawner<A> for AsyncStdSpawner {
     where
         F: Future<Output = crate::DynResult<A>> + Send + 'static,
     {
+        // a panic of the actor must not be re-raised in whoever joins it: join yields None like on tokio
+        let future = AssertUnwindSafe(future).catch_unwind();
         let handle = Arc::new(async_lock::Mutex::new(Some(async_std::task::spawn(future))));
         ActorHandle::new(move || -> JoinFuture<A> {
             let handle = Arc::clone(&handle);
             Box::pin(async move {
-                let mut handle: Option<async_std::task::JoinHandle<DynResult<A>>> =
-                    handle.lock().await.take();
+                let mut handle: Option<
+                    async_std::task::JoinHandle<std::thread::Result<DynResult<A>>>,
+                > = handle.lock().await.take();
 
                 if let Some(handle) = handle.take() {
                     // TODO: don 't eat the error
-                    handle.await.ok()
+                    handle.await.ok().and_then(Result::ok)
                 } else {
                     None
                 }
